@@ -313,7 +313,23 @@ func RuleHK1(c *Ctx) {
 				arg = ast.Unparen(cf.Resolve(conv.Args[0]))
 			}
 		}
-		if how := transformedKey(info, arg); how == "" {
+		how := transformedKey(info, arg)
+		// the hashed text is a parameter of a helper: judged at the helper's call sites
+		if id, ok := arg.(*ast.Ident); ok && how == "" && cs.Lit == nil {
+			if pi := paramIndex(cs, info, info.ObjectOf(id)); pi >= 0 {
+				if self := declObj(cs); self != nil {
+					for _, up := range c.callSitesOf(self) {
+						if pi < len(up.Call.Args) {
+							ucf := c.CFG(up.Pk, up.Body)
+							if h := transformedKey(up.Pk.TypesInfo, ast.Unparen(ucf.Resolve(up.Call.Args[pi]))); h != "" {
+								how = h
+							}
+						}
+					}
+				}
+			}
+		}
+		if how == "" {
 			sc.Holds(key, c.P.Pos(cs.Call.Pos()), "hashes "+types.ExprString(arg)+" as it is")
 		} else {
 			sc.Violation(key, c.P.Pos(cs.Call.Pos()), "what identifies a scanner level in the tracer cache is a transformed name ("+how+"), not the file's name as the recursion guard knows it: two different files of one include chain can share a cache slot, and a late diagnostic then reports the include chain of the other one")
